@@ -446,6 +446,9 @@ class ProgGen:
         """References valid on table `h`: through any earlier handle whose column id is still in scope,
         or by name via C."""
         t = self.rr.env[h]
+        if self.cfg.get("c_only"):
+            # name based references only: they survive an inserted alias() (C08 repair runs)
+            return [(cname(n), t.cols[i].fam) for n, i in t.vis]
         out = []
         vis_ids = {i for _, i in t.vis}
         seen = set()
@@ -471,6 +474,11 @@ class ProgGen:
     def total_key(self, h):
         """A reference to the unique key column `k` if it is still in scope (visible or hidden)."""
         t = self.rr.env[h]
+        if self.cfg.get("c_only"):
+            for n, i in t.vis:
+                if t.cols[i].name0 == "k":
+                    return cname(n)
+            return None
         for hh, lst in self.refs.items():
             for n, i in lst:
                 if n == "k" and i in t.cols and t.cols[i].name0 == "k":
@@ -1201,4 +1209,353 @@ def gen_reroot(seed):
     p["meta"]["before_after"] = [before, after]
     if pol_only:
         p["meta"]["skip_backends"] = ["sqlite"]
+    return p
+
+
+# ---------------------------------------------------------------------------------------------
+# C15: metamorphic pairs
+# ---------------------------------------------------------------------------------------------
+
+EQUIVS = ["mutate_split", "filter_split", "window_verbs_vs_kwargs", "drop_vs_select", "rename_inverse", "slice_chain", "inner_vs_cross_filter",
+          "map_vs_case", "is_in_vs_or", "union_swap"]
+
+
+def gen_equiv(seed, which=None):
+    g = ProgGen(seed)
+    rng = g.rng
+    eq = which or rng.choice(EQUIVS)
+    h0 = g.add_table("t", cols=["k", "g", "x", "y", "f", "b", "s"])
+    h = g.chain(h0, rng.randint(0, 3), {"mutate": 2, "filter": 2, "rename": 1, "select": 0.7, "arrange": 1}, depth=1)
+    if g.rr.env[h].group:
+        st = g.step_ungroup(h)
+        if g.try_step(st):
+            h = st["out"]
+    t = g.rr.env[h]
+    sc = g.scope(h)
+    A, B = [], []
+
+    def nh():
+        return g.new_handle()
+
+    def add(branch, st):
+        branch.append(st)
+        return st["out"]
+
+    ok = True
+    if eq == "mutate_split":
+        names = [n for n in ["y1", "y2", "y3"] if n not in t.names()][:2]
+        e1 = g.eg.expr(rng.choice(["int", "float", "str", "bool"]), sc, 2)
+        e2 = g.eg.expr(rng.choice(["int", "float", "str", "bool"]), sc, 2)
+        a = add(A, {"in": h, "out": nh(), "verb": "mutate", "kw": [[names[0], e1], [names[1], e2]]})
+        m = add(B, {"in": h, "out": nh(), "verb": "mutate", "kw": [[names[0], e1]]})
+        b = add(B, {"in": m, "out": nh(), "verb": "mutate", "kw": [[names[1], e2]]})
+    elif eq == "filter_split":
+        p, q = g.eg.expr("bool", sc, 2), g.eg.expr("bool", sc, 2)
+        a = add(A, {"in": h, "out": nh(), "verb": "filter", "preds": [p, q]})
+        m = add(B, {"in": h, "out": nh(), "verb": "filter", "preds": [p]})
+        b = add(B, {"in": m, "out": nh(), "verb": "filter", "preds": [q]})
+    elif eq == "window_verbs_vs_kwargs":
+        vis = g.scope(h, visible_only=True, c_prob=0)
+        gcs = [e for e, f in vis if f in ("int", "bool", "str") and g.rr.env[e["t"]].cols[g._cid(e)].name0 != "k"]
+        tk = g.total_key(h)
+        if not gcs or tk is None:
+            ok = False
+        else:
+            gc = rng.choice(gcs)
+            order = g.eg.orders(sc, tk, p_total=1.0, allow_unmarked=False)
+            if not any(o["e"] == tk for o in order):
+                order.append({"e": tk, "desc": False, "nl": None})
+            op = rng.choice(["shift", "row_number", "shift", "sum", "max", "count"])
+            xs = [e for e, f in sc if f == "int"]
+            if not xs:
+                ok = False
+            else:
+                x = rng.choice(xs)
+                mk = {
+                    "shift": lambda **kw: fn("shift", x, lit(rng.choice([1, -1, 2])), lit(None), **kw),
+                    "row_number": lambda **kw: fn("row_number", **kw),
+                    "cum_sum": lambda **kw: fn("cum_sum", x, **kw),
+                    "sum": lambda **kw: fn("sum", x, **({k: v for k, v in kw.items() if k != "arr"})),
+                    "max": lambda **kw: fn("max", x, **({k: v for k, v in kw.items() if k != "arr"})),
+                    "count": lambda **kw: fn("count_star", **({k: v for k, v in kw.items() if k != "arr"})),
+                }[op]
+                # random.Random state must be the same for both sides: build once, copy
+                import copy as _c
+
+                eB = mk(pb=[gc], arr=order)
+                eA = _c.deepcopy(eB)
+                eA.pop("pb", None)
+                eA.pop("arr", None)
+                a1 = add(A, {"in": h, "out": nh(), "verb": "group_by", "cols": [gc]})
+                a2 = add(A, {"in": a1, "out": nh(), "verb": "arrange", "by": order})
+                a3 = add(A, {"in": a2, "out": nh(), "verb": "mutate", "kw": [["w", eA]]})
+                a4 = add(A, {"in": a3, "out": nh(), "verb": "ungroup"})
+                a = add(A, {"in": a4, "out": nh(), "verb": "arrange", "by": [{"e": tk, "desc": False, "nl": None}]})
+                b1 = add(B, {"in": h, "out": nh(), "verb": "mutate", "kw": [["w", eB]]})
+                b = add(B, {"in": b1, "out": nh(), "verb": "arrange", "by": [{"e": tk, "desc": False, "nl": None}]})
+    elif eq == "drop_vs_select":
+        if len(t.vis) < 2:
+            ok = False
+        else:
+            k = rng.randint(1, len(t.vis) - 1)
+            dropped = rng.sample(t.vis, k)
+            keep = [(n, i) for n, i in t.vis if (n, i) not in dropped]
+            a = add(A, {"in": h, "out": nh(), "verb": "drop", "cols": [g._ref_for(h, i, n) if rng.random() < 0.6 else cname(n) for n, i in dropped]})
+            b = add(B, {"in": h, "out": nh(), "verb": "select", "cols": [g._ref_for(h, i, n) if rng.random() < 0.6 else cname(n) for n, i in keep]})
+    elif eq == "rename_inverse":
+        names = t.names()
+        k = rng.randint(1, min(3, len(names)))
+        ch = rng.sample(names, k)
+        mp = [[n, n + "_tmp"] for n in ch]
+        if k >= 2 and rng.random() < 0.4:
+            mp = [[ch[0], ch[1]], [ch[1], ch[0]]]
+        inv = [[b_, a_] for a_, b_ in mp]
+        m = add(A, {"in": h, "out": nh(), "verb": "rename", "map": mp})
+        a = add(A, {"in": m, "out": nh(), "verb": "rename", "map": inv})
+        b = add(B, {"in": h, "out": nh(), "verb": "filter", "preds": []})
+    elif eq == "slice_chain":
+        tk = g.total_key(h)
+        if tk is None:
+            ok = False
+        else:
+            base = add(A, {"in": h, "out": nh(), "verb": "arrange", "by": [{"e": tk, "desc": rng.random() < 0.3, "nl": None}]})
+            B.append(A[0])
+            n1, o1 = rng.choice([1, 2, 3, 5, 8]), rng.choice([0, 0, 1, 2, 4])
+            n2, o2 = rng.choice([0, 1, 2, 5, 9]), rng.choice([0, 1, 2, 4, 6])
+            m = add(A, {"in": base, "out": nh(), "verb": "slice_head", "n": n1, "offset": o1})
+            a = add(A, {"in": m, "out": nh(), "verb": "slice_head", "n": n2, "offset": o2})
+            b = add(B, {"in": base, "out": nh(), "verb": "slice_head", "n": min(n2, max(n1 - o2, 0)), "offset": o1 + o2})
+    elif eq == "inner_vs_cross_filter":
+        h1 = g.add_table("u", cols=["k", "g", "x", "s"], shape="small_dups", nrows=rng.randint(0, 7))
+        if t.n * g.rr.env[h1].n > 20000:
+            ok = False
+        else:
+            st = None
+            for _ in range(4):
+                st = g.step_join(h, h1, how="inner")
+                if st is not None and "on" in st and st["on"]:
+                    break
+                st = None
+            if st is None:
+                ok = False
+            else:
+                st.pop("cross", None)
+                st["suffix"] = "_u"
+                a = add(A, dict(st, out=nh()))
+                c = add(B, {"in": h, "out": nh(), "verb": "join", "right": h1, "how": "inner", "on": [], "cross": True, "suffix": "_u"})
+                b = add(B, {"in": c, "out": nh(), "verb": "filter", "preds": st["on"]})
+    elif eq == "map_vs_case":
+        fam = rng.choice(["int", "str"])
+        xs = [e for e, f in sc if f == fam]
+        if not xs:
+            ok = False
+        else:
+            x = rng.choice(xs)
+            pool = INT_POOL if fam == "int" else STR_POOL
+            keys = rng.sample(pool, 4)
+            vfam = rng.choice(["int", "str"])
+            vals = [lit(v) for v in rng.sample(INT_POOL if vfam == "int" else STR_POOL, 3)]
+            m = [[lit(keys[0]), vals[0]], [[lit(keys[1]), lit(keys[2])], vals[1]]]
+            default = vals[2] if (rng.random() < 0.7 or vfam != fam) else None
+            em = {"k": "map", "e": x, "m": m, "default": default}
+            ec = {"k": "case", "cases": [[fn("is_in", x, lit(keys[0])), vals[0]], [fn("is_in", x, lit(keys[1]), lit(keys[2])), vals[1]]],
+                  "default": default if default is not None else x}
+            a = add(A, {"in": h, "out": nh(), "verb": "mutate", "kw": [["m", em]]})
+            b = add(B, {"in": h, "out": nh(), "verb": "mutate", "kw": [["m", ec]]})
+    elif eq == "is_in_vs_or":
+        fam = rng.choice(["int", "str", "float"])
+        xs = [e for e, f in sc if f == fam]
+        if not xs:
+            ok = False
+        else:
+            x = rng.choice(xs)
+            v1 = g.eg.leaf(fam, sc if rng.random() < 0.4 else [], True)
+            v2 = g.eg.leaf(fam, [], True) if rng.random() < 0.8 else lit(None)
+            a = add(A, {"in": h, "out": nh(), "verb": "mutate", "kw": [["m", fn("is_in", x, v1, v2)]]})
+            b = add(B, {"in": h, "out": nh(), "verb": "mutate", "kw": [["m", fn("or", fn("eq", x, v1), fn("eq", x, v2))]]})
+            if rng.random() < 0.5:
+                a = add(A, {"in": a, "out": nh(), "verb": "filter", "preds": [cname("m")]})
+                b = add(B, {"in": b, "out": nh(), "verb": "filter", "preds": [cname("m")]})
+    elif eq == "union_swap":
+        cols = ["g", "x", "s"]
+        h1 = g.add_table("u", cols=["s", "x", "g", "y"], shape=rng.choice(["small_dups", "null_heavy", "empty"]), nrows=rng.choice([0, 3, 7]))
+        if not all(c in t.names() for c in cols):
+            ok = False
+        else:
+            l = {"in": h, "out": nh(), "verb": "select", "cols": [cname(c) for c in cols]}
+            r = {"in": h1, "out": nh(), "verb": "select", "cols": [cname(c) for c in ["s", "g", "x"]]}
+            A += [l, r]
+            B += [l, r]
+            d = rng.random() < 0.5
+            a = add(A, {"in": l["out"], "out": nh(), "verb": "union", "right": r["out"], "distinct": d})
+            b = add(B, {"in": r["out"], "out": nh(), "verb": "union", "right": l["out"], "distinct": d})
+    if not ok:
+        return gen_equiv(seed + 7919, which)
+    seen = set()
+    for st in A + B:
+        if id(st) in seen:
+            continue
+        seen.add(id(st))
+        if not g.try_step(st):
+            return gen_equiv(seed + 7919, which)
+    p = g.finish([a, b])
+    p["meta"]["equivalence"] = eq
+    p["meta"]["pair"] = [a, b]
+    return p
+
+
+# ---------------------------------------------------------------------------------------------
+# C08: verb orders that may need a subquery on SQL
+# ---------------------------------------------------------------------------------------------
+
+SUBQ_ALPHABET = ["filter", "filter_win", "mutate", "mutate_win", "mutate_agg", "summarize", "slice_head", "arrange", "group_by", "join", "union", "select", "rename"]
+
+
+def _c_only(exprs):
+    return exprs
+
+
+def gen_subq(seed, order=None, alias_at=()):
+    """A pipeline over the C08 alphabet (name-based references only), optionally with alias() inserted."""
+    g = ProgGen(seed, cfg={"c_only": True})
+    rng = g.rng
+    h = g.add_table("t", cols=["k", "g", "x", "y", "f", "b", "s"])
+    order = order or [rng.choice(SUBQ_ALPHABET) for _ in range(rng.randint(2, 6))]
+    win_names = []
+    applied = []
+    for pos, v in enumerate(order):
+        if pos in alias_at:
+            st = {"in": h, "out": g.new_handle(), "verb": "alias", "keep": False}
+            if g.try_step(st):
+                h = st["out"]
+                applied.append("alias")
+        t = g.rr.env[h]
+        st = None
+        if v == "filter":
+            st = g.step_filter(h, 1)
+        elif v == "filter_win":
+            live = [n for n in win_names if n in t.names() and t.cols[t.name_to_id()[n]].fam in ("int", "float")]
+            if not live:
+                continue
+            st = {"in": h, "out": g.new_handle(), "verb": "filter", "preds": [fn("gt", cname(rng.choice(live)), lit(1))]}
+        elif v == "mutate":
+            st = g.step_mutate(h, ("e",), 1)
+        elif v == "mutate_win":
+            st = g.step_mutate(h, ("w",), 1)
+            if st is not None:
+                win_names += [n for n, _ in st["kw"]]
+        elif v == "mutate_agg":
+            st = g.step_mutate(h, ("a",), 1)
+            if st is not None:
+                win_names += [n for n, _ in st["kw"]]
+        elif v == "summarize":
+            if not t.group and rng.random() < 0.6:
+                gb = g.step_group_by(h)
+                if gb is not None and g.try_step(gb):
+                    h = gb["out"]
+                    applied.append("group_by")
+            st = g.step_summarize(h)
+        elif v == "slice_head":
+            if t.group:
+                u = g.step_ungroup(h)
+                if g.try_step(u):
+                    h = u["out"]
+            # make the slice well defined
+            ar = g.step_arrange(h, p_total=1.0)
+            if ar is not None and g.try_step(ar):
+                h = ar["out"]
+                applied.append("arrange")
+            st = g.step_slice(h)
+        elif v == "arrange":
+            st = g.step_arrange(h, p_total=0.9)
+        elif v == "group_by":
+            st = g.step_group_by(h)
+        elif v == "select":
+            st = g.step_select(h)
+        elif v == "rename":
+            st = g.step_rename(h)
+        elif v in ("join", "union"):
+            if t.group:
+                u = g.step_ungroup(h)
+                if g.try_step(u):
+                    h = u["out"]
+            g2cfg = g.cfg
+            h1 = g.add_table(f"u{len(g.tables)}", cols=["k", "g", "x", "s"], shape="small_dups", nrows=rng.randint(0, 8))
+            prep = rng.choice([[], ["filter"], ["mutate"], ["slice_head"], ["summarize"], ["mutate_win"], ["arrange"]])
+            for pv in prep:
+                ps = None
+                if pv == "filter":
+                    ps = g.step_filter(h1, 1)
+                elif pv == "mutate":
+                    ps = g.step_mutate(h1, ("e",), 1)
+                elif pv == "mutate_win":
+                    ps = g.step_mutate(h1, ("w",), 1)
+                elif pv == "arrange":
+                    ps = g.step_arrange(h1, 1.0)
+                elif pv == "slice_head":
+                    ar = g.step_arrange(h1, 1.0)
+                    if ar is not None and g.try_step(ar):
+                        h1 = ar["out"]
+                    ps = g.step_slice(h1)
+                elif pv == "summarize":
+                    gb = g.step_group_by(h1)
+                    if gb is not None and g.try_step(gb):
+                        h1 = gb["out"]
+                    ps = g.step_summarize(h1)
+                if ps is not None and g.try_step(ps):
+                    h1 = ps["out"]
+            _ = g2cfg
+            if v == "join":
+                lt, rt = g.rr.env[h], g.rr.env[h1]
+                common = [n for n in lt.names() if n in rt.names() and lt.cols[lt.name_to_id()[n]].fam == rt.cols[rt.name_to_id()[n]].fam and lt.cols[lt.name_to_id()[n]].fam in ("int", "str")]
+                if not common or lt.n * rt.n > 20000:
+                    continue
+                st = {"in": h, "out": g.new_handle(), "verb": "join", "right": h1, "how": rng.choice(["inner", "left", "full"]), "on_names": [rng.choice(common)]}
+            else:
+                lt, rt = g.rr.env[h], g.rr.env[h1]
+                common = [n for n in lt.names() if n in rt.names() and lt.cols[lt.name_to_id()[n]].fam == rt.cols[rt.name_to_id()[n]].fam]
+                if not common:
+                    continue
+                a = {"in": h, "out": g.new_handle(), "verb": "select", "cols": [cname(x) for x in common]}
+                b = {"in": h1, "out": g.new_handle(), "verb": "select", "cols": [cname(x) for x in reversed(common)]}
+                if not (g.try_step(a) and g.try_step(b)):
+                    continue
+                h = a["out"]
+                st = {"in": h, "out": g.new_handle(), "verb": "union", "right": b["out"], "distinct": rng.random() < 0.4}
+        if st is None:
+            continue
+        if g.try_step(st):
+            h = st["out"]
+            applied.append(v)
+        else:
+            g.nh -= 1
+    p = g.finish([s["out"] for s in g.steps if s["verb"] not in ("group_by",)][-3:] or [h])
+    p["meta"]["order"] = applied
+    return p
+
+
+def gen_simple(seed):
+    """C08(c): element-wise mutate/filter, select, rename, arrange, one grouped summarize, final slice_head."""
+    g = ProgGen(seed)
+    rng = g.rng
+    h = g.add_table("t", cols=["k", "g", "x", "y", "f", "b", "s"])
+    w = {"mutate": 3, "filter": 3, "select": 1.5, "rename": 1.5, "arrange": 2}
+    h = g.chain(h, rng.randint(1, 5), w, depth=2)
+    if rng.random() < 0.6:
+        gb = g.step_group_by(h)
+        if gb is not None and g.try_step(gb):
+            h = gb["out"]
+            sm = g.step_summarize(h)
+            if g.try_step(sm):
+                h = sm["out"]
+                h = g.chain(h, rng.randint(0, 3), w, depth=1)
+    if rng.random() < 0.7:
+        ar = g.step_arrange(h, p_total=1.0)
+        if ar is not None and g.try_step(ar):
+            h = ar["out"]
+        sl = g.step_slice(h)
+        if g.try_step(sl):
+            h = sl["out"]
+    p = g.finish([h])
+    p["meta"]["simple"] = True
     return p
